@@ -192,9 +192,25 @@ let run (args : (string * string) list) : string =
        (match get_opt args "comp" with
         | Some "greedy" ->
           let segs = segments seglens g in
-          let msel = List.concat (List.map2 (fun s c -> greedy_sel p cs (n_of_int s) c)
-                                    (List.filteri (fun i _ -> i < List.length seglens) cuts) segs) in
-          add "selmatch" (ok (msel = sel))
+          let sstarts = List.filteri (fun i _ -> i < List.length seglens) cuts in
+          (* the implementation's choices, chunk by chunk, must be a run of the greedy rule
+             under some tie-break among equally cheap candidates (proved checker
+             [greedy_run_ok]: C06_greedy_run_window_chunk, C06_greedy_run_depth) *)
+          let ssel = segments seglens sel in
+          let rec run_all i ss cc sl = match ss, cc, sl with
+            | s :: ss', c :: cc', l :: sl' ->
+              if greedy_run_ok p cs (n_of_int s) c l then run_all (i + 1) ss' cc' sl'
+              else Some i
+            | [], [], [] -> None
+            | _ -> Some i in
+          add "selrun" (if List.length sel <> nn then "FAIL(length)" else
+                          match run_all 0 sstarts segs ssel with
+                          | None -> "ok"
+                          | Some i -> Printf.sprintf "FAIL(segment%d)" i);
+          (* informational: do they also coincide with the model's own tie-break (the
+             nearest candidate of minimal cost)? *)
+          let msel = List.concat (List.map2 (fun s c -> greedy_sel p cs (n_of_int s) c) sstarts segs) in
+          add "i_selmatch" (if msel = sel then "same" else "differs")
         | Some "zuck" ->
           let k = get_int args "chunk" in
           let segs = segments seglens g in
